@@ -93,6 +93,13 @@ for r in RECL_ALL:
         _c01_thorough.append(run("reclaim", "proto_" + r, c=2, heap="reuse", opt={"ops": 0x24, "T": 3, "m": 2}, weight=3.0))
 _c01_thorough.append(run("reclaim", "proto_he", c=3, heap="reuse", opt={"fixed": 2, "T": 3, "m": 2}, weight=6.0))
 _c01_thorough.append(run("reclaim", "proto_he", c=2, d=1, mode="wmm", heap="reuse", opt={"fixed": 2, "T": 3, "m": 2}, weight=2.0))
+# less eager parameters (scan_frequency 1..3, scan threshold B = 2, scan n_threads<1>, abandon threshold 2, eager region extension): the counters that delay
+# a scan or an epoch advance are part of the protocol too
+RECL_LAZY = ["ebr_f2", "debra_f1", "gebr_f3", "hp_b2", "hed_b2"]
+for r in RECL_LAZY:
+    _c01_quick.append(run("reclaim", "proto_" + r, c=1, opt={"ops": 0xee}, weight=0.5))
+    _c01_thorough.append(run("reclaim", "proto_" + r, c=2, opt={"ops": 0xee}, weight=2))
+    _c01_thorough.append(run("reclaim", "proto_" + r, c=2, opt={"ops": 0x62, "T": 3, "m": 1}, weight=1))
 PLAN["C01"] = {
     "quick": _c01_quick, "thorough": _c01_thorough, "budget_s": {"quick": 190, "thorough": 1300},
     "rule": "client programs: T threads x m operations over {acquire+deref, acquire+hold across later operations, acquire_if_equal, copy/assign then reset the original, "
@@ -101,7 +108,8 @@ PLAN["C01"] = {
             "guard, payload integrity, heap lifetime shadow (no access to freed memory, quarantine: freed memory is never reused), race-with-deallocation check; "
             "in addition fixed adversarial families: recycle-behind-a-reader (two cells) and ABA-under-acquire_if_equal (three threads, heap in immediate-reuse mode "
             "so that a new node gets the address of the node just reclaimed)",
-    "assumptions": ["reclaimers are instantiated with the most eager reclamation parameters (scan threshold 0, scan_frequency 0) so that a protocol error surfaces inside a short history"],
+    "assumptions": ["reclaimers are instantiated with the most eager reclamation parameters (scan threshold 0, scan_frequency 0) so that a protocol error surfaces inside a short history; "
+                    "five further configurations use delayed scans (scan_frequency 1..3, threshold B = 2, n_threads<1>, abandon threshold 2, eager region extension)"],
 }
 LEVEL_TEXT["C01"] = ("all interleavings with <= c preemptions (c=1..2 quick, 2..3 thorough) of all enumerated protocol-conforming 2-3 thread client programs, for 13 "
                      "reclaimer configurations; every dereference through a guard is checked against the ledger and the heap lifetime shadow")
@@ -118,6 +126,10 @@ for r in RECL_ALL:
     _c02_thorough.append(run("reclaim", "proto_" + r, c=1, opt={"ops": 0x62, "allow_update_only": 1, "gens": 2, "m": 1}, weight=1.0))
 for r in ["hp", "he", "qsbr", "ebr", "nebr", "debra", "gebr_lazy", "gebr_thr", "lfrc"]:
     _c02_quick.append(run("reclaim", "proto_" + r, c=2, opt={"ops": 0x62, "allow_update_only": 1}, weight=1.5))
+for r in RECL_LAZY:
+    _c02_quick.append(run("reclaim", "proto_" + r, c=1, opt={"ops": 0x162, "allow_update_only": 1, "flush": 80}, weight=0.5))
+    _c02_thorough.append(run("reclaim", "proto_" + r, c=2, opt={"ops": 0x162, "allow_update_only": 1, "flush": 80}, weight=1.5))
+    _c02_thorough.append(run("reclaim", "proto_" + r, c=2, opt={"ops": 0x62, "allow_update_only": 1, "T": 3, "m": 1, "flush": 100}, weight=1.5))
 PLAN["C02"] = {
     "quick": _c02_quick, "thorough": _c02_thorough, "budget_s": {"quick": 170, "thorough": 1100},
     "rule": "client programs as for C01 with updaters only / updaters + holders, threads that exit early (operation `none`), 2-3 threads and up to 2 thread "
@@ -156,6 +168,9 @@ for r in RECL_ALL:
     _c17_thorough.append(run("reclaim", "proto_" + r, c=2, opt={"ops": 0x62, "T": 3, "m": 1}, weight=2.0))
 for r in ["hp", "hpd", "he", "hed", "lfrc"]:
     _c17_thorough.append(run("reclaim", "proto_" + r, c=3, opt={"ops": 0x22, "T": 3, "m": 1}, weight=4.0))
+for r in RECL_LAZY:
+    _c17_quick.append(run("reclaim", "proto_" + r, c=1, opt={"ops": 0x62, "allow_update_only": 1, "gens": 2, "m": 1, "flush": 80}, weight=0.5))
+    _c17_thorough.append(run("reclaim", "proto_" + r, c=2, opt={"ops": 0x6a, "allow_update_only": 1, "gens": 2, "m": 1, "flush": 80}, weight=1.5))
 PLAN["C17"] = {
     "quick": _c17_quick, "thorough": _c17_thorough, "budget_s": {"quick": 170, "thorough": 1100},
     "rule": "G = 2..3 generations of T = 1..2 overlapping threads (fresh pthreads, thread_local reclaimer state constructed and destroyed per thread, destructors explored "
